@@ -78,19 +78,23 @@ TEMPLATES = {
     "unreg-flat21": ("x-unreg", "2.1", "unreg-obs", {"name": "flat", "foo": 3, "tags": ["charlie", "echo"]}),
     # the only type of the pool whose identifiers spell their UUID with upper-case hex digits (legal; no lower-case sibling in its directory)
     "campaign21": ("campaign", "2.1", "sdo", {"name": "camp", "aliases": ["alpha", "foxtrot"], "objective": "obj", "confidence": 30}),
+    # the only type whose identifiers are no UUIDv1-5 (version digit 7; STIX 2.1 asks for the RFC 4122 variant only): nothing about a
+    # directory layout may depend on the UUID version
+    "course-of-action21": ("course-of-action", "2.1", "sdo", {"name": "coa", "description": "do", "confidence": 10, "labels": ["golf"]}),
 }
 # two id slots per template: (template, slot number)
 SLOT_BASE = {"identity20": 0x10, "indicator20": 0x24, "malware20": 0x30, "attack-pattern20": 0x40, "relationship20": 0x50,
              "marking20": 0x60 - 0x0, "gadget20": 0x70, "unreg20": 0x78, "identity21": 0x20, "indicator21": 0x22, "malware21": 0x32,
              "intrusion-set21": 0x42, "relationship21": 0x52, "report21": 0x5a, "ipv4-addr21": 0x80, "file21": 0x84,
-             "marking21": 0x61, "widget21": 0x72, "unreg21": 0x7a, "unreg-obs21": 0x88, "unreg-flat21": 0x7c, "campaign21": 0xca}
+             "marking21": 0x61, "widget21": 0x72, "unreg21": 0x7a, "unreg-obs21": 0x88, "unreg-flat21": 0x7c, "campaign21": 0xca, "course-of-action21": 0xc0}
 UPPER_CASE_IDS = ("campaign21",)
+UUID7_IDS = ("course-of-action21",)
 # marking20 uses 0x60 and 0x62, marking21 0x61 and 0x63 (MD20/MD21 above are slot 0)
 SLOT_STEP = {"marking20": 2, "marking21": 2}
 UNREG_TYPES = ("x-unreg-old", "x-unreg", "x-unreg-obs")
 CUSTOM_TYPES = ("x-verif-gadget", "x-verif-widget")
 ALL_TEMPLATES = sorted(TEMPLATES)
-NODE_TEMPLATES = [t for t in ALL_TEMPLATES if not t.startswith(("relationship", "marking"))]
+NODE_TEMPLATES = [t for t in ALL_TEMPLATES if not t.startswith(("relationship", "marking")) and t not in UUID7_IDS]     # (2.0 relationships cannot refer to a non-v4 id)
 ALL_TYPES = sorted({v[0] for v in TEMPLATES.values()})
 
 
@@ -99,6 +103,9 @@ def slot_id(tname, k):
     i = oid(typ, SLOT_BASE[tname] + k * SLOT_STEP.get(tname, 1))
     if tname in UPPER_CASE_IDS:
         i = typ + "--" + ("abcdef" + i.split("--", 1)[1][6:]).upper()
+    if tname in UUID7_IDS:
+        u = i.split("--", 1)[1]
+        i = typ + "--" + u[:14] + "7" + u[15:]
     return i
 
 
